@@ -523,7 +523,7 @@ package pipeline
 //@   ghost nout int = 0
 //@   ghost passed bool = false
 //@   ghost unlock bool = false
-//@   requires event != nil && event.action >= 0
+//@   requires event != nil && event.action >= 0 && event.kind != EventKindTimeout
 //@   requires len(p.busyActions) == len(p.actions) && len(p.actionInfos) == len(p.actions)
 //@   ensures nout <= 1 && (nout == 1) == (passed && !unlock)
 //@   ensures result == !(passed && unlock)
@@ -540,16 +540,26 @@ package pipeline
 // processEvent: after a hold / collapse the next event is taken from the same
 // stream the finalized event belonged to (never from another stream).
 
+// A time-out event (C13 / C04: "any time-out event it may be sent") is addressed
+// to an action that is waiting for the next event of the stream (busy), never to
+// an action that merely returned non-pass last: that one would be called with a
+// nil Root.  (Stated as: busy at its index, or no action is busy at all.)
+
 //@ func (*processor).processEvent
 //@   ghost evstream int = 0
 //@   requires event != nil && event.action >= 0
+//@   requires event.kind != EventKindTimeout
 //@   requires len(p.busyActions) == len(p.actions) && len(p.actionInfos) == len(p.actions)
 //@   ensures result0 ==> result1 != nil
 //@   loop 1 invariant event != nil && event.action >= 0 && len(p.busyActions) == len(p.actions) && len(p.actionInfos) == len(p.actions)
+//@   loop 1 invariant event.kind == EventKindTimeout ==> (event.action < len(p.busyActions) && p.busyActions[event.action]) || (forall k :: 0 <= k && k < len(p.busyActions) ==> !p.busyActions[k])
+//@   loop 2 invariant event != nil && event.kind == EventKindTimeout && len(p.busyActions) == len(p.actions) && len(p.actionInfos) == len(p.actions) && lastAction >= 0
+//@   loop 2 invariant forall k :: 0 <= k && k <= rangeindex && k < len(p.busyActions) ==> !p.busyActions[k]
 //@   setat "passed, lastAction := p.doActions(event)" evstream := ref(event.stream)
 //@   assert at "event = stream.blockGet()" ref(stream) == evstream
 //@   callee doActions(e) (ok, last)
 //@     requires e == event
+//@     requires e.kind == EventKindTimeout ==> (e.action < len(p.busyActions) && p.busyActions[e.action]) || (forall k :: 0 <= k && k < len(p.busyActions) ==> !p.busyActions[k])
 //@   callee blockGet() (r)
 //@     preserves processor
 //@     ensures r != nil && r.action >= 0
@@ -562,7 +572,7 @@ package pipeline
 
 //@ func (*processor).Propagate
 //@   ghost a0 int = 0
-//@   requires event != nil && event.action >= 0
+//@   requires event != nil && event.action >= 0 && event.kind != EventKindTimeout
 //@   requires len(p.busyActions) == len(p.actions) && len(p.actionInfos) == len(p.actions)
 //@   setat "event.action++" a0 := event.action
 //@   callee tryResetBusy(i)
